@@ -46,9 +46,36 @@ type result struct {
 // shrink: greedily delete decoded runes while the predicate still fails
 func shrink(b []byte, fails func([]byte) bool) []byte {
 	cur := append([]byte(nil), b...)
+	deadline := time.Now().Add(8 * time.Second)
+	// delta debugging: remove chunks (cut at rune starts) of half the input, a quarter, ... down to a few
+	// bytes; then single code points until nothing can be removed. Bounded in time: a failing input that
+	// is long by necessity (an offset beyond 2^16) stays long.
+	for chunk := len(cur) / 2; chunk >= 4; chunk /= 2 {
+		for i := 0; i < len(cur); {
+			if time.Now().After(deadline) {
+				return cur
+			}
+			j := i + chunk
+			if j > len(cur) {
+				j = len(cur)
+			}
+			for j < len(cur) && !utf8.RuneStart(cur[j]) {
+				j++
+			}
+			cand := append(append([]byte(nil), cur[:i]...), cur[j:]...)
+			if len(cand) > 0 && fails(cand) {
+				cur = cand
+			} else {
+				i = j
+			}
+		}
+	}
 	for changed := true; changed; {
 		changed = false
 		for i := 0; i < len(cur); {
+			if time.Now().After(deadline) {
+				return cur
+			}
 			_, n := utf8.DecodeRune(cur[i:])
 			cand := append(append([]byte(nil), cur[:i]...), cur[i+n:]...)
 			if len(cand) > 0 && fails(cand) {
@@ -118,6 +145,9 @@ func runMonitor(prop string, m monitor, cs *caseSource, thorough bool) monitorRe
 		longMax = 600 // the monitor re-segments at every reported boundary: quadratic
 	}
 	cs.eachLong(cs.n/400, longMax, handle)
+	if prop != "C11" && prop != "C15" {
+		cs.eachHuge(thorough, handle)
+	}
 	if byteExhaustive[prop] {
 		n := 5
 		if thorough {
@@ -169,6 +199,11 @@ func runMonitorC13(cs *caseSource) monitorResult {
 	}
 	cs.each(handle)
 	cs.eachLong(cs.n/400, 6000, handle)
+	cs.eachHuge(false, func(i int, gc genCase) {
+		// one complete pass, past the end, Reset, and a second pass over the first clusters
+		n := utf8.RuneCount(gc.input)
+		one(i, gc, strings.Repeat("N", n+2)+"R"+strings.Repeat("N", 50))
+	})
 	return res
 }
 
@@ -263,6 +298,7 @@ func main() {
 	}
 
 	t0 := time.Now()
+	useArena = true
 	loadFacts(*factsPath)
 	ci = scanClasses()
 	if !strings.Contains(*stages, "ALLOC") {
